@@ -27,13 +27,17 @@ import (
 func init() { register("C15", "fault_enumeration", runC15) }
 
 // server message alphabet
-var c15Alphabet = []string{"SF", "SFn", "SFt", "SFm", "SFz", "V", "Vk", "Vx", "Vp", "Ve", "Vz", "V0", "Vc", "Vg", "Er", "E", "J", "235", "535"}
+var c15Alphabet = []string{"SF", "SFn", "SFt", "SFm", "SFz", "V", "Vk", "Vx", "Vp", "Ve", "Vz", "Vw", "V0", "Vc", "Vg", "Er", "E", "J", "235", "535"}
 
 type c15Case struct {
 	Mech   string   `json:"mech"`
 	TLS    string   `json:"tls"` // none | 1.2 | 1.3
 	Via    string   `json:"via"` // client | direct
 	Script []string `json:"script"`
+	// Prior (direct only): the script of an earlier exchange, on another connection, that used the same smtp.Auth value;
+	// only the exchange that follows it is judged. What an observer of the earlier exchange knows (its server-final,
+	// the length of its AuthMessage) is available to the forger of the judged one.
+	Prior []string `json:"prior_exchange_with_the_same_auth_value,omitempty"`
 }
 
 type c15Step struct {
@@ -50,6 +54,9 @@ type c15Trace struct {
 	Open       bool // script exhausted while the client was still in the exchange
 	Initial    string
 	authCalled bool
+	calls      int
+	carryFinal []byte
+	carryAMLen int
 }
 
 const c15User, c15Pass = "user", "pencil"
@@ -73,18 +80,41 @@ func c15Handler(c c15Case, tr *c15Trace) refsmtp.AuthHandler {
 		}
 		x := sasl.NewScram(cfg)
 		tr.mu.Lock()
-		tr.authCalled = true
+		call := tr.calls
+		tr.calls++
+		script, judged := c.Script, true
+		if len(c.Prior) > 0 && call == 0 {
+			script, judged = c.Prior, false
+		}
+		tr.authCalled = tr.authCalled || judged
+		prevFinal := tr.carryFinal
+		carriedAMLen := tr.carryAMLen
 		tr.mu.Unlock()
-		var prevFinal []byte
 		haveCF := false  // a client-first of the running exchange is known
 		sfValid := false // a valid server-first was sent for it
 		haveFin := false // the client-final for that server-first is known
 		note := func(st c15Step) {
+			if !judged {
+				return
+			}
 			tr.mu.Lock()
 			tr.Steps = append(tr.Steps, st)
 			tr.mu.Unlock()
 		}
 		lastClientFinal := ""
+		lastAMLen := carriedAMLen // length of the AuthMessage the client computed last (it answered a server-first with a client-final)
+		defer func() {
+			// what an observer of this exchange takes along to the next one with the same Auth value
+			tr.mu.Lock()
+			defer tr.mu.Unlock()
+			tr.carryAMLen = lastAMLen
+			if haveCF && sfValid {
+				if !haveFin {
+					x.SetClientFinalNoProof("c=biws,r=" + x.ClientNonce + cfg.ServerNonce)
+				}
+				tr.carryFinal = x.ServerFinal()
+			}
+		}()
 		consume := func(resp []byte) string {
 			switch {
 			case len(resp) == 0:
@@ -104,6 +134,7 @@ func c15Handler(c c15Case, tr *c15Trace) refsmtp.AuthHandler {
 				return "client-first"
 			case strings.HasPrefix(string(resp), "c="):
 				lastClientFinal = string(resp)
+				lastAMLen = len(x.ClientFirstBare) + 1 + len(x.ServerFirstMsg) + 1 + len(strings.SplitN(lastClientFinal, ",p=", 2)[0])
 				if sfValid {
 					if ok, _ := x.VerifyClientFinal(resp); ok {
 						haveFin = true
@@ -120,7 +151,7 @@ func c15Handler(c c15Case, tr *c15Trace) refsmtp.AuthHandler {
 			consume(initial)
 		}
 		otherKey := sasl.ScramServerFinal
-		for _, sym := range c.Script {
+		for _, sym := range script {
 			st := c15Step{Sym: sym}
 			var msg []byte
 			switch sym {
@@ -178,6 +209,14 @@ func c15Handler(c c15Case, tr *c15Trace) refsmtp.AuthHandler {
 				sg := hmac.New(hf, sk.Sum(nil))
 				sg.Write([]byte(am))
 				msg = []byte("v=" + base64.StdEncoding.EncodeToString(sg.Sum(nil)))
+			case "Vw":
+				// signed over exchange state that was overwritten with zero octets instead of being dropped: a zero key and
+				// as many zero octets as the last AuthMessage had (anyone who watched the abandoned exchange knows that length)
+				sk := hmac.New(hf, make([]byte, hf().Size()))
+				sk.Write([]byte("Server Key"))
+				sg := hmac.New(hf, sk.Sum(nil))
+				sg.Write(make([]byte, lastAMLen))
+				msg = []byte("v=" + base64.StdEncoding.EncodeToString(sg.Sum(nil)))
 			case "V0": // a verifier without a signature
 				msg = []byte("v=")
 			case "Vc": // no signature, only "extensions"
@@ -219,9 +258,11 @@ func c15Handler(c c15Case, tr *c15Trace) refsmtp.AuthHandler {
 			st.RespKind = consume(resp)
 			note(st)
 		}
-		tr.mu.Lock()
-		tr.Open = true
-		tr.mu.Unlock()
+		if judged {
+			tr.mu.Lock()
+			tr.Open = true
+			tr.mu.Unlock()
+		}
 		return actBadCreds
 	}
 }
@@ -281,6 +322,21 @@ func runC15Case(r *ev.Run, c c15Case) (open bool) {
 		} else {
 			a = smtp.ScramSHA1Auth(c15User, c15Pass)
 		}
+		if len(c.Prior) > 0 {
+			_ = sc.Auth(a)
+			_ = conn.Close()
+			r.Count("earlier_exchanges_with_the_same_auth_value", 1)
+			conn, err = farm.Dial(context.Background(), "tcp", "")
+			if err != nil {
+				r.HarnessError(err.Error())
+				return false
+			}
+			_ = conn.SetDeadline(time.Now().Add(15 * time.Second))
+			if sc, err = smtp.NewClient(conn, netHost); err != nil {
+				r.HarnessError("NewClient: " + err.Error())
+				return false
+			}
+		}
 		authErr = sc.Auth(a)
 		_ = conn.Close()
 	} else {
@@ -335,13 +391,13 @@ func runC15Case(r *ev.Run, c c15Case) (open bool) {
 				invalidAcked = true
 				viol("ack-server-error-message", fmt.Sprintf("step %d: the client answered the server-error message %q with %s instead of ending the exchange with an error", i, st.Sent, st.RespKind), steps)
 			}
-		case "V", "Vk", "Vx", "Vp", "Ve", "Vz", "V0", "Vc", "Vg":
+		case "V", "Vk", "Vx", "Vp", "Ve", "Vz", "Vw", "V0", "Vc", "Vg":
 			if st.RespKind == "ack" {
 				if st.ValidHere {
 					proofSeen = true
 				} else {
 					invalidAcked = true
-					kind := map[string]string{"V": "ack-server-final-without-valid-exchange", "Vk": "ack-server-final-of-other-key", "Vx": "ack-server-final-of-other-exchange", "Vp": "ack-replayed-server-final-of-abandoned-exchange", "Ve": "ack-server-final-over-empty-state", "Vz": "ack-server-final-of-zero-key", "V0": "ack-empty-verifier", "Vc": "ack-verifier-of-extensions-only", "Vg": "ack-signature-with-trailing-bytes"}[st.Sym]
+					kind := map[string]string{"V": "ack-server-final-without-valid-exchange", "Vk": "ack-server-final-of-other-key", "Vx": "ack-server-final-of-other-exchange", "Vp": "ack-replayed-server-final-of-abandoned-exchange", "Ve": "ack-server-final-over-empty-state", "Vz": "ack-server-final-of-zero-key", "Vw": "ack-server-final-over-zeroed-state", "V0": "ack-empty-verifier", "Vc": "ack-verifier-of-extensions-only", "Vg": "ack-signature-with-trailing-bytes"}[st.Sym]
 					viol(kind, fmt.Sprintf("step %d: the client acknowledged a server-final message that is not the valid one for the running exchange (%s)", i, st.Sym), steps)
 				}
 			} else if st.ValidHere && (st.RespKind == "cancel" || st.RespKind == "closed") {
@@ -372,7 +428,7 @@ func runC15Case(r *ev.Run, c c15Case) (open bool) {
 		ks = append(ks, st.Sym+">"+st.RespKind)
 	}
 	r.Seen("distinct_traces", c.Mech+"|"+strings.Join(ks, ","))
-	r.Eval(c.Mech+"|"+c.Via+"|"+strings.Join(c.Script, ","), len(c.Script) > 0 && dev != "none")
+	r.Eval(c.Mech+"|"+c.Via+"|"+strings.Join(c.Prior, ",")+"|"+strings.Join(c.Script, ","), len(c.Script) > 0 && dev != "none")
 	return open
 }
 
@@ -643,6 +699,25 @@ func runC15(r *ev.Run, rep *ev.ReplayDoc) ev.Summary {
 		})
 		level = next
 	}
+	// an Auth value that has been through an earlier exchange (abandoned after the server-first, ended by a bad or a
+	// valid server-final): every script of up to three messages in the exchange that follows
+	var pcases []c15Case
+	for _, mech := range []string{"SCRAM-SHA-256", "SCRAM-SHA-1"} {
+		for _, prior := range [][]string{{"SF", "J"}, {"SF", "Vk"}, {"SF", "535"}, {"SF", "V", "235"}, {"SF", "E", "J"}} {
+			for _, a := range c15Alphabet {
+				pcases = append(pcases, c15Case{Mech: mech, TLS: "none", Via: "direct", Prior: prior, Script: []string{a, "235"}})
+				if a == "235" || a == "535" {
+					continue
+				}
+				for _, b := range c15Alphabet {
+					if b != "235" && b != "535" {
+						pcases = append(pcases, c15Case{Mech: mech, TLS: "none", Via: "direct", Prior: prior, Script: []string{a, b, "235"}})
+					}
+				}
+			}
+		}
+	}
+	r.Parallel(len(pcases), func(i int) { runC15Case(r, pcases[i]) })
 	// passwords the SCRAM password preparation refuses, the same Auth value used for several exchanges
 	var ucases []c15UnusableCase
 	for _, mech := range []string{"SCRAM-SHA-256", "SCRAM-SHA-1"} {
